@@ -766,7 +766,9 @@ func (w *Wiretap) Datagram(dir, ord int, clientAddr string, d []byte) []*TapPack
 				t = (t + 3) & 3
 			}
 			c := w.findConn(clientAddr, dir, p.DCID, p.SCID, true)
-			if c == nil && dir == 0 && t == 0 {
+			if dir == 0 && t == 0 && (c == nil || !c.cids[0][string(p.DCID)]) {
+				// a client Initial towards a destination ID no connection knows starts a new connection
+				// (a source ID that happens to equal an older connection's proves nothing: short IDs collide)
 				c = w.newConn(clientAddr, p.DCID, p.Version)
 			}
 			// A delayed or duplicated client Initial that arrives after the server has forgotten the original
